@@ -288,7 +288,9 @@ def analyse_tu(src, tier="quick", extra=(), keep_ir=False):
             if c["kind"] == "__verif_declare":
                 res["declared"].append(e)
                 if c["cond"] == 0:
-                    res["refuted"].append(e)
+                    # the condition folded to false on a reachable point: counts as undischarged even when the prove-mode branch vanished
+                    # (an earlier constant-false obligation or undefined behaviour ends the path there and would hide it)
+                    res["refuted"].append(e); res["indeterminate"].append(e)
                 if c["cond"] == "undef":
                     # the condition was computed from an indeterminate value (a constant out-of-bounds read of a local, an uninitialised
                     # member): the prove-mode branch on it can be folded either way, so the obligation counts as undischarged
@@ -308,7 +310,7 @@ def analyse_tu(src, tier="quick", extra=(), keep_ir=False):
         for e in res["indeterminate"]:
             if (e["func"], e["id"], tuple(e["ints"])) not in have:
                 res["residual"].append(dict(func=e["func"], id=e["id"], ints=e["ints"], driver_loc=[],
-                                            library_path=["(declare mode) the obligation's condition folded to undef/poison: the path reads an indeterminate value"]))
+                                            library_path=["(declare mode) the obligation's condition folded to %s on a reachable point" % ("false" if e.get("cond") == 0 else "undef/poison: the path reads an indeterminate value")]))
         if keep_ir:
             res["ir_dir"] = workdir
     finally:
